@@ -2,6 +2,7 @@ package git
 
 import (
 	"context"
+	"fmt"
 	"io"
 	"io/ioutil"
 	"strings"
@@ -135,6 +136,11 @@ func unpackOneRepo(
 	submoduleCtrls map[string]*gitWarehouse.Controller,
 	mon rio.Monitor,
 ) (err error) {
+	// go-git's tree walker takes a sub-tree object it cannot load for the end of the walk:
+	//  a repository that lost one would yield a silently truncated tree.  Look for ourselves first.
+	if err := checkSubtreesPresent(tr); err != nil {
+		return Errorf(rio.ErrWareCorrupt, "corrupt git tree: %s", err)
+	}
 	tw := object.NewTreeWalker(tr, true, nil)
 
 	// Make the root dir.  Git doesn't have metadata for the tree root.
@@ -268,5 +274,22 @@ func unpackOneRepo(
 		}
 	}
 
+	return nil
+}
+
+// checkSubtreesPresent loads every tree object below `tr` (tree objects only: no blobs are read).
+func checkSubtreesPresent(tr *object.Tree) error {
+	for _, te := range tr.Entries {
+		if te.Mode != filemode.Dir {
+			continue
+		}
+		sub, err := tr.Tree(te.Name)
+		if err != nil {
+			return fmt.Errorf("sub-tree %q (%s): %s", te.Name, te.Hash, err)
+		}
+		if err := checkSubtreesPresent(sub); err != nil {
+			return err
+		}
+	}
 	return nil
 }
